@@ -117,6 +117,8 @@ def run(ctx):
     ahb += ["Muss [1] U", "Muss[1]U", "Soll ([1]", "Kann [1] [", "X [1]O", "Mus[2]", "MU[1]", "MUU[1]", "Muss[2]C[3]", "Muſſ[1]", "K[1]", "", " ", "Muss", " Muss[1]",
             "Muss[1] ", "Muss [1]\x0bSoll[2]", "Muss[1]Soll", "Muss[1]X", "X", "x", "XX", "Muss[1P]", "Muss[UB1]", "Muss[1P0..1]", "Muss [1] Soll [2] Kann"]
     ahb += strings.MALFORMED_META
+    conf = strings.confusable_indicators()   # indicators respelled with characters that case mapping / normalisation folds onto their letters
+    ahb += conf
     for _ in range(100 if ctx.quick else 1500):
         ahb.append(rng.choice(INDICATORS) + " " + strings.garbage(rng, rng.randint(1, 8)))
     ahb += pool[:: max(1, len(pool) // (300 if ctx.quick else 3000))]
